@@ -244,6 +244,11 @@ def judge_field(seed):
     nrng = np.random.default_rng(seed)
     shape = tuple(int(nrng.integers(8, 29)) for _ in range(3))
     spacing = tuple(float(x) for x in nrng.uniform(0.3, 1.7, size=3))
+    unit = int(nrng.integers(0, 10))
+    if unit < 4:
+        # unit spacing along one or two of the axes only (a grid in Angstrom along x and y, in another step along z)
+        keep = [(0,), (1,), (2,), (0, 1)][unit]
+        spacing = tuple(spacing[i] if i in keep else 1.0 for i in range(3))
     f = blob_field(nrng, shape, spacing)
     level = float(nrng.uniform(0.15, 0.6))
     bmax = max(f[0].max(), f[-1].max(), f[:, 0].max(), f[:, -1].max(), f[:, :, 0].max(), f[:, :, -1].max())
